@@ -143,6 +143,39 @@ pub fn between_page<S: PageSize>(r: &mut Rep, a: u64, b: u64) {
 }
 
 pub fn step_index(r: &mut Rep, i: u16, n: usize) {
+    step_index_tag(r, "C05", i, n);
+}
+
+/// the provided (panicking) Step methods and the open-ended range built on them: a value is returned only where the position
+/// exists, and it is that position - in particular never an index outside 0..512 (C04)
+pub fn index_provided(r: &mut Rep, tag: &str, i: u16, n: usize) {
+    let x = PageTableIndex::new(i);
+    let case = format!("index {} {:#x}", i, n);
+    let ef = ((i as u128) + (n as u128) < 512).then(|| i + n as u16);
+    let eb = (n <= i as usize).then(|| i - n as u16);
+    let pf = catch(|| u16::from(Step::forward(x, n))).ok();
+    let pb = catch(|| u16::from(Step::backward(x, n))).ok();
+    r.ev(ef.is_none() || eb.is_none());
+    if pf != ef || pb != eb {
+        r.viol(&format!("{}|PageTableIndex|Step::forward/backward-return-an-index-where-none-exists-or-disagree-with-checked", tag), &case, &format!("{:?} {:?} expected {:?} {:?}", pf, pb, ef, eb));
+    }
+    if n <= 600 {
+        // (x..) yields x, x+1, ... and must stop (panic) rather than yield an index >= 512
+        let mut got: Vec<u16> = vec![];
+        let _ = catch(std::panic::AssertUnwindSafe(|| {
+            for v in (x..).take(n) {
+                got.push(u16::from(v));
+            }
+        }));
+        let want: Vec<u16> = (i..512).take(n).collect();
+        if got.len() > want.len() || got[..] != want[..got.len()] || got.len() + 1 < want.len() {
+            r.viol(&format!("{}|PageTableIndex|open-ended-range-yields-an-index-outside-0..512-or-wrong-items", tag), &case, &format!("{} items, last {:?}; expected {} items", got.len(), got.last(), want.len()));
+        }
+    }
+}
+
+pub fn step_index_tag(r: &mut Rep, tag: &str, i: u16, n: usize) {
+    index_provided(r, tag, i, n);
     let x = PageTableIndex::new(i);
     r.ev((i as usize).saturating_add(n) >= 512 || n > i as usize);
     let case = format!("index {} {:#x}", i, n);
